@@ -498,6 +498,18 @@ def r11_10(ctx) -> None:
             if not ok:
                 why = "the function can complete without having selected an encoding"
     ctx.check(ok, "R11.10", fn, fn.node, fn.short, f"PEM / DER export dispatch: {why}", "None | 'PEM' -> Encoding.PEM; 'DER' -> Encoding.DER; else ValueError", construct="dump_pem_key encoding dispatch")
+    # the two named exports ask for their own encoding
+    for meth, want in (("as_pem", ("PEM", None)), ("as_der", ("DER",))):
+        for w in eng.prog.implementations(eng.prog.cls("rfc7517.models:BaseKey"), meth):
+            sites = [s_ for s_ in eng.cg.calls_in(w) if isinstance(s_.node, ast.Call) and s_.attr == "as_bytes"]
+            okw = bool(sites)
+            for s_ in sites:
+                a = next((k.value for k in s_.node.keywords if k.arg == "encoding"), s_.node.args[0] if s_.node.args else None)
+                v = const_value(a) if a is not None else None
+                if v not in want:
+                    okw = False
+            ctx.check(okw, "R11.10", w, w.node, f"{w.short} :: encoding", f"{w.short} does not ask as_bytes for the {want[0]} encoding", f"as_bytes(encoding={want[0]!r}, ...)",
+                      construct=f"encoding requested by {w.short}")
 
 
 def r11_11(ctx) -> None:
